@@ -858,7 +858,7 @@ class BaseFockState(BaseState):
                 np.mod(linear_coeff.nonzero()[0], self._modes),
             ]
         )
-        ex_modes = list(set(nonzero))
+        ex_modes = sorted(set(nonzero))
         num_modes = len(ex_modes)
 
         if not ex_modes:
